@@ -123,6 +123,9 @@ class C01(object):
                 "preexisting": rnd.choice([None, None, "f4", "shared"]),
                 # sf2gv(out=...): a refused call (omega of the wrong length) between two uses of the caller's array
                 "refused_call": rnd.random() < 0.4,
+                # the table object had read another file (sc/fc titles, other detector positions) before it read this one,
+                # which uses the older xc/yc titles
+                "reread_xcyc": rnd.random() < 0.2,
                 # history: a long-lived columnfile first updated with OTHER parameters, which are then edited in place
                 "history": None if rnd.random() < 0.5 else {"first_pars": (draw_pars(rnd) if rnd.random() < 0.6 else "tiny"),
                                                             "tiny": [rnd.choice(["distance", "y_center", "z_center", "y_size", "z_size",
@@ -255,11 +258,24 @@ class C01(object):
         enginea.apply_cfg(sim, cfgP, strict=0, track_conflicts=0, pct_est=max(20, 45 * n // cfgP["team"]), step_cap=4000000000)
         sim.begin_run()
         Pcols = {}
+        reread = 0
         refusal_damage = None
         with contextlib.redirect_stdout(io.StringIO()):
             hist = desc.get("history") if route in ("updateGeometry", "updateGV") else None
             cp = base.copy()
             pre = desc.get("preexisting") if not hist else None
+            if desc.get("reread_xcyc") and not hist and route in ("updateGeometry", "updateGV") and n:
+                pa = os.path.join(ctx.scratch, "c01_a_%d.h5" % os.getpid())
+                pb = os.path.join(ctx.scratch, "c01_b_%d.h5" % os.getpid())
+                for pth in (pa, pb):
+                    if os.path.exists(pth):
+                        os.remove(pth)
+                cfm.colfile_to_hdf(cfm.colfile_from_dict({"sc": fc[::-1] + 3.0, "fc": sc[::-1] - 2.0, "omega": om.copy()}), pa, name="peaks")
+                cfm.colfile_to_hdf(cfm.colfile_from_dict({"xc": sc.copy(), "yc": fc.copy(), "omega": om.copy()}), pb, name="peaks")
+                cp = cfm.columnfile(pa)
+                cp.readfile(pb)
+                pre = None
+                reread = 1
             if pre and route in ("updateGeometry", "updateGV"):
                 shared = np.zeros(n)
                 for c_ in COLS:
@@ -383,6 +399,7 @@ class C01(object):
         meas["concurrent_python_callers"] = n_conc
         meas["second_Ctransform_alive"] = 1 if ct_other is not None else 0
         meas["preexisting_derived_columns"] = {str(desc.get("preexisting")): 1}
+        meas["table_object_reused_for_an_xc/yc_file"] = reread
         meas["history_runs(in-place parameter edit between updates)"] = 1 if (desc.get("history") and route in ("updateGeometry", "updateGV")) else 0
         meas["branch_cut_peaks_excluded"] = int(cut.sum())
         meas["np_empty_garbage_buffers"] = self.proxy.count
